@@ -90,6 +90,16 @@ int vh_num(void)
 	free(a); free(b); free(x);
 	return 0;
     }
+    if (strcmp(op, "pvalue") == 0) {		/* num pvalue n x2 */
+	extern double vh_chisq_pvalue(int n, double x2);
+	int n = (int)vh_parse_long(vh_tok[2]);
+	double x2 = vh_parse_double(vh_tok[3]), r;
+	if (vh_ntok != 4 || n < 1) return -1;
+	LIB(r = vh_chisq_pvalue(n, x2));
+	vh_out("ok");
+	vh_out_double(r);
+	return 0;
+    }
     if (strcmp(op, "rfi") == 0) {		/* num rfi n m seg x <n x's> <n complex y's> */
 	int n = (int)vh_parse_long(vh_tok[2]), m = (int)vh_parse_long(vh_tok[3]);
 	int seg = (int)vh_parse_long(vh_tok[4]);
